@@ -1905,3 +1905,63 @@ func checkEventsNotMutated(c *Ctx, r *Report, rule string) {
 		r.OK(rule, construct, "-", fmt.Sprintf("%d stores into events examined (all into events built on the spot)", n))
 	}
 }
+
+// ---- C05: every pass of a read-until loop looks at the deadline ------------------------------------------------------
+//
+// loops-cancellable demands that a waiting loop has an exit governed by its context. That exit must lie on *every*
+// cycle: a check that was moved behind the "nothing read yet: sleep and continue" branch is never reached while the
+// device is silent -- which is exactly the situation the deadline exists for.
+
+func checkDeadlineEveryPass(c *Ctx, r *Report, rule string) {
+	for _, name := range []string{"ReadUntilFuzzy", "ReadUntilExplicit", "ReadUntilPrompt", "ReadUntilAnyPrompt"} {
+		outer, fn, read, _, why := readUntilLoopParts(c, name)
+		if why == "anchor" {
+			r.Anchor(rule, "(*channel.Channel)."+name+" / Read")
+			continue
+		}
+		construct := shortFn(outer) + " looks at its context on every pass"
+		if read == nil {
+			r.OK(rule, construct, c.Pos(outer.Pos()), "loop shape decided elsewhere (enqueue-once)")
+			continue
+		}
+		isCtxCheck := func(in ssa.Instruction) bool {
+			switch x := in.(type) {
+			case *ssa.Select:
+				for _, st := range x.States {
+					if call, ok := st.Chan.(*ssa.Call); ok && call.Call.IsInvoke() && call.Call.Method.Name() == "Done" && isContextType(call.Call.Value.Type()) {
+						return true
+					}
+				}
+			case *ssa.UnOp:
+				if x.Op == token.ARROW {
+					if call, ok := x.X.(*ssa.Call); ok && call.Call.IsInvoke() && call.Call.Method.Name() == "Done" && isContextType(call.Call.Value.Type()) {
+						return true
+					}
+				}
+			case *ssa.Call:
+				if x.Call.IsInvoke() && x.Call.Method.Name() == "Err" && isContextType(x.Call.Value.Type()) {
+					return true
+				}
+				// a helper of the package that is handed the context (isDone(ctx), next(ctx))
+				if h := x.Call.StaticCallee(); h != nil && h.Pkg == fn.Pkg && h != fn {
+					for _, a := range x.Call.Args {
+						if isContextType(a.Type()) {
+							return true
+						}
+					}
+				}
+			}
+			return false
+		}
+		if isCtxCheck(read) {
+			r.OK(rule, construct, c.Pos(read.Pos()), "the chunk helper is handed the context")
+			continue
+		}
+		rr := reachFrom(fn, read, isCtxCheck, nil)
+		if rr.visited[read] {
+			r.Bad(rule, construct, c.Pos(read.Pos()), shortFn(outer)+": there is a cycle from one Channel.Read to the next that does not pass the context check (the branch taken while nothing arrives only sleeps and reads again): when the device goes silent the loop never sees its deadline and the operation hangs", rr.witness(c, read)...)
+		} else {
+			r.OK(rule, construct, c.Pos(read.Pos()), "every path from one read to the next passes the context check")
+		}
+	}
+}
